@@ -292,5 +292,5 @@ def _outer(interp, e, fr, g, C, esort, src):
     for f in facts:
         interp.assume(f)
     interp.state["summarised"] = interp.state.get("summarised", 0) + 1
-    interp.state["n_loops"] = interp.state.get("n_loops", 0) + 1  # quantified facts about the heap from here on: enable the second pruning stage
+    interp.state["quantified_facts"] = True  # quantified facts about the heap from here on: enable the second pruning stage
     return res
